@@ -37,7 +37,8 @@ EXTENDS Integers, Sequences, FiniteSets, TLC, Json
 CONSTANTS NI, NV, NP,               \* ids 1..NI, vectors 1..NV (prefix of VecTable), payload tags 1..NP
           BufModes,                 \* values of buf explored
           Ks,                       \* k values of Query explored by the exhaustive model
-          MaxOps, MaxVer, MaxBatch, \* bounds of the exhaustive model (mutating calls, optimizations, batch length)
+          MaxOps, MaxVer,           \* bounds of the exhaustive model: mutating calls per program, optimizations
+          MaxBatch, BatchVecs,      \*   and the batches tried: length, vectors (payload tag 1)
           FConsolidateTombstones, FBufferBlind
 
 VARIABLES content, tmp, idx, ver, buf, want,
@@ -202,10 +203,8 @@ GetRes(id) ==
        ELSE IdxLookup(id)
 
 \* Get(ctx, id) returned (ok, vector v, payload p)
-Get(id, ok, v, p) ==
-  /\ ~broken /\ id \in Ids
-  /\ GetRes(id) = [ok |-> ok, v |-> v, p |-> p]
-  /\ UNCHANGED vars
+GetMatches(id, ok, v, p) == id \in Ids /\ GetRes(id) = [ok |-> ok, v |-> v, p |-> p]
+Get(id, ok, v, p) == ~broken /\ GetMatches(id, ok, v, p) /\ UNCHANGED vars
 
 \* what a query may score: non-nil TempVectors values when the buffer is open (brute force),
 \* otherwise the non-tombstone entries of the probed centroids (any of them)
@@ -231,10 +230,10 @@ QueryValid(q, k, f, hits) ==
         /\ Cardinality({j \in 1..n : hits[j] = hits[i]}) <= Cardinality({c \in Eligible(f) : HitOf(q, c) = hits[i]})
   /\ \A i \in 1..(n - 1) : hits[i].sd >= hits[i + 1].sd
 
-Query(q, k, f, ok, hits) ==
-  /\ ~broken /\ ok = TRUE /\ q \in 1..Len(VecTable) /\ k >= 0 /\ f \in 0..NP
+QueryMatches(q, k, f, ok, hits) ==
+  /\ ok = TRUE /\ q \in 1..Len(VecTable) /\ k >= 0 /\ f \in 0..NP
   /\ QueryValid(q, k, f, hits)
-  /\ UNCHANGED vars
+Query(q, k, f, ok, hits) == ~broken /\ QueryMatches(q, k, f, ok, hits) /\ UNCHANGED vars
 
 -----------------------------------------------------------------------------
 (* C33 *)
@@ -286,8 +285,8 @@ TypeOK == /\ \A i \in Ids : content[i].st \in {"none", "live", "dead"} /\ conten
           /\ ver \in 0..MaxVer /\ buf \in {0, 1, 2}
 
 -----------------------------------------------------------------------------
-\* batches of the exhaustive model: all ids and vectors, payload tag 1 (a batch is a sequence of upserts)
-Batches == UNION {[1..n -> Ids \X Vecs \X {1}] : n \in 1..MaxBatch}
+\* batches of the exhaustive model (a batch is a sequence of upserts; the same id may occur twice)
+Batches == UNION {[1..n -> Ids \X BatchVecs \X {1}] : n \in 1..MaxBatch}
 
 Next == \/ \E id \in Ids, v \in Vecs, p \in Pays : Upsert(id, v, p, TRUE)
         \/ \E items \in Batches : UpsertBatch(items, TRUE)
@@ -302,7 +301,8 @@ Spec == Init /\ [][Next]_vars
 View == <<content, tmp, idx, ver, buf, want, broken>>
 
 EmitDone == PrintT(<<"BEH", ToJson([buf |-> buf, ops |-> hist])>>)
-\* for configurations that are expected to violate C33 (findings switched on): emit the shortest witness
-GetOKWitness == GetOK \/ (PrintT(<<"CEX", ToJson([buf |-> buf, ops |-> hist])>>) /\ FALSE)
+\* for the configuration that models the pinned commit (deviations switched on): list the programs that reach a
+\* state in which C33 is broken (they are replayed on the real store to confirm the deviation is real)
+C33Witness == (GetOK /\ IndexOK /\ ~broken) \/ PrintT(<<"CEX", ToJson([buf |-> buf, ops |-> hist])>>)
 ASSUME PrintT(<<"VECS", ToJson(VecTable)>>)
 =============================================================================
